@@ -3,7 +3,7 @@ import ast
 
 import z3
 
-from pv import classes
+from pv import classes, smt
 from pv.values import (VMap, V, VInt, VBool, VStr, VNONE, VNoneT, VTuple, VRef, VList, VOpt, VPy, VFn, VAny,
                        OutOfSubset, fresh, fresh_name, kind_of, I, B, S)
 
@@ -257,6 +257,8 @@ class Evaluator:
         n0 = len(st.guards)
         is_and = isinstance(e.op, ast.And)
         for x in e.values:
+            if vals and not st.spec and not smt.feasible(list(st.pc) + list(st.guards)):
+                break       # short circuit: this operand is never evaluated on this path
             v = self.ev(st, x)
             vals.append(v)
             t = self.truthy(st, v)
